@@ -134,7 +134,7 @@ class CloneFitted(Contract):
 
 META = dict(
     level="proof", assumptions=["A1", "A2", "A6", "A7", "A8", "A9"],
-    trusted=["the assumed contracts of C08/C10/C15/C17 (estimator protocol: outputs are deterministic functions of fitted state and row; transform_bins assumed)",
+    trusted=["the assumed contracts of C08/C10/C15/C17 (estimator protocol: outputs are deterministic functions of fitted state and row; transform_bins: contract proved under C08, used here as a summary)",
              "row extensionality; copy.deepcopy copies arrays/lists; sklearn.base.clone copies constructor parameters and clones nested estimators"],
     not_applicable=["pickle round trips (and the Cython criteria's __reduce__): no contract within reach expresses pickling - bounded stand-in",
                     "KMeansL1L2 / ConstraintKMeans / PiecewiseTreeRegressor predictions: row-wise by delegation to scikit-learn (assumed) - bounded stand-in; "
